@@ -19,14 +19,14 @@ def verdict_rule(ck, F, rule):
     ck.fn(AN.H.P_VER + "verify_and_return_transcript")
     msms = [m for m in I.msm_log if m["fn"].endswith("verify_and_return_transcript")]
     ck.require(len(msms) == 1, rule, "single-msm", f"expected one combined multiscalar check in verify, found {len(msms)}")
-    guards = [it for it in I.trace.items if it[0] == "guard" and it[4].endswith("verify_and_return_transcript")]
+    guards, final = AN.exit_chain(I, V["ret"], lambda f: f.endswith("verify_and_return_transcript"))
     last = guards[-1] if guards else None
     ok = False
     why = "no guard on the multiscalar result"
     if last is not None:
-        c = last[1]
+        c = last[0]
         subj = getattr(c, "subject", None)
-        errv = last[2]
+        errv = last[1]
         ok = isinstance(c, Cond) and c.op == "iszero" and c.neg and isinstance(subj, Pt) and isinstance(errv, Enum) and errv.variant == "Err" and "VerificationError" in repr(errv.payload)
         why = f"guard is {c} -> {errv!r}"
         if ok and msms:
@@ -34,8 +34,8 @@ def verdict_rule(ck, F, rule):
             from ..alg import pt_eq
             from ..lib import pt_terms_of_segment
             ok = len(subj.terms) > 0
-    ck.require(ok, rule, "verdict", f"verify must return Err(VerificationError) exactly when the combined point is not the identity; {why}", last[3] if last else "")
-    ret = V["ret"]
+    ck.require(ok, rule, "verdict", f"verify must return Err(VerificationError) exactly when the combined point is not the identity; {why}", last[2] if last else "")
+    ret = final
     ck.require(isinstance(ret, Enum) and ret.variant == "Ok", rule, "accept-path", f"value on the accepting path is {ret!r}")
     return V
 
